@@ -215,6 +215,26 @@ def work(ctx, tier):
         ctx.inc("scenarios")
         if k < 1 and ctx.shard == 0:
             ctx.sample({"scenario": sc, "entries_compared": ents, "reference_projection": [list(map(str, ref[0][0][:20])), str(ref[0][1])]})
+    # systematic: a policy without a retry component but with a breaker, whose operation ends with each kind of final outcome - in
+    # particular a nested policy giving up (RetryExhaustedError carrying each class, or none): call() and execute(), sync and async,
+    # must tell the breaker the same thing
+    nr = 0
+    for brk in ({"threshold": 2, "window": 8.0, "recovery": 4.0, "trip_on": ["TRANSIENT", "SERVER_ERROR"], "class_thresholds": {}, "pre": []},
+                {"threshold": 3, "window": 8.0, "recovery": 4.0, "trip_on": ["TRANSIENT", "RATE_LIMIT", "UNKNOWN"], "class_thresholds": {"RATE_LIMIT": 1}, "pre": []}):
+        for last in [["ok"], ["exc", "TRANSIENT"], ["exc", "PERMANENT"], ["sp", "nested_open", "TRANSIENT"], ["sp", "abort"]] + [["sp", "nested_exh", kl] for kl in ("TRANSIENT", "SERVER_ERROR", "RATE_LIMIT", "PERMANENT", "AUTH", "UNKNOWN", None)]:
+            nr += 1
+            if nr % ctx.nshards != ctx.shard:
+                continue
+            sc = gen.rand_scenario(rng, p_special=0.0, p_budget=0.0, p_breaker=0.0, p_handler=0.0, p_abort=0.0, ncalls=(1, 1))
+            sc["cfg"]["breaker"] = dict(brk)
+            sc["cfg"]["no_retry"] = True
+            sc["fault"] = None
+            sc["calls"] = [gen.mk_call([list(last)]), gen.mk_call([list(last)]), gen.mk_call([["ok"]])]
+            ents = [e for e in rig.BREAKER_ENTRIES if e.lstrip("a").startswith("policy.")]
+            rng.shuffle(ents)
+            compare(ctx, sc, ents, stats)
+            ctx.add_hash("nontrivial", sc)
+            ctx.inc("retryless_breaker_scenarios")
     for i, sc in enumerate(gen.sweep_scenarios(max_len=3, stride=16 if tier == "quick" else 2)):
         if i % ctx.nshards != ctx.shard:
             continue
